@@ -77,6 +77,10 @@ def _fps(home):
         return [e["fingerprint"] for e in json.load(f)]
 
 
+ROUTES = ["list", "list", "dict", "file", "dir", "json"]
+routes_used = set()
+
+
 def _replay(args):
     seed, idx, hist = args
     from csvpath import CsvPaths
@@ -94,7 +98,31 @@ def _replay(args):
             ops_so_far = [s["op"] for s in hist[: i + 1]]
             try:
                 if op["k"] == "add":
-                    cp.paths_manager.add_named_paths(name=op["g"], paths=[texts[x["m"]] for x in op["l"]])
+                    # every loading route ends in the same Add action of NamedPaths.tla: the list itself, a dictionary of groups,
+                    # a file of csvpaths joined by the separator line, a directory holding that file, a JSON file naming it
+                    plist = [texts[x["m"]] for x in op["l"]]
+                    route = ROUTES[(seed + idx) % len(ROUTES)]      # one route per history: the file routes strip each csvpath, so mixing routes changes the stored bytes
+                    routes_used.add(route)
+                    pm0 = cp.paths_manager
+                    if route == "list":
+                        pm0.add_named_paths(name=op["g"], paths=plist)
+                    elif route == "dict":
+                        pm0.set_named_paths({op["g"]: plist})
+                    else:
+                        d = os.path.join("src", f"r{i}")
+                        os.makedirs(d, exist_ok=True)
+                        fpath = os.path.join(d, f"{op['g']}.csvpaths")
+                        with open(fpath, "w", encoding="utf-8") as f:
+                            f.write("\n---- CSVPATH ----\n".join(plist))
+                        if route == "file":
+                            pm0.add_named_paths_from_file(name=op["g"], file_path=fpath)
+                        elif route == "dir":
+                            pm0.add_named_paths_from_dir(directory=d)
+                        else:
+                            jp = os.path.join(d, "groups.json")
+                            with open(jp, "w", encoding="utf-8") as f:
+                                json.dump({op["g"]: [fpath]}, f)
+                            pm0.add_named_paths_from_json(jp)
                 elif op["k"] == "remove":
                     cp.paths_manager.remove_named_paths(op["g"])
                 elif op["k"] == "new":
